@@ -11,6 +11,7 @@ import (
 	"time"
 
 	tpb "github.com/fullstorydev/grpchan/grpchantesting"
+	"github.com/fullstorydev/grpchan/httpgrpc"
 	spb "google.golang.org/genproto/googleapis/rpc/status"
 	"google.golang.org/grpc"
 	"google.golang.org/grpc/codes"
@@ -308,6 +309,58 @@ func checkC02(e *core.Env) {
 			}
 			if out.Seen && out.OK && got < sent {
 				e.Violate(fmt.Sprintf("%s/%s/success-despite-%s", c.Name, kindClass(kind), mode), fmt.Sprintf("handler attempted %d responses, one %s; client received %d and reported success", sent, mode, got), witness(run))
+			}
+		}
+	})
+
+	// responses cut short (a sample of the C07 cut points, judged for the status the client reports)
+	e.Cases("truncated", e.N(60, 600), func(i int, r *rand.Rand) {
+		nm := r.Intn(4)
+		var msgs []*tpb.Message
+		for k := 0; k < nm; k++ {
+			msgs = append(msgs, &tpb.Message{Payload: []byte(fmt.Sprintf("t%d-%d", i, k))})
+		}
+		ret := genRet(r)
+		if ret.How != "status" || ret.Code > 16 {
+			ret = Ret{How: "status", Code: uint32(1 + r.Intn(16)), Msg: "handler status"}
+		}
+		ret.Msg = normStatusMsg(ret.Msg)
+		tr := &httpgrpc.HttpTrailer{Code: int32(ret.Code), Message: ret.Msg, Details: ret.Details}
+		if r.Intn(3) == 0 {
+			tr = &httpgrpc.HttpTrailer{Message: "OK"}
+		}
+		fb := encodeStream(msgs, tr)
+		lastEnd := 0
+		if len(fb.msgEnds) > 0 {
+			lastEnd = fb.msgEnds[len(fb.msgEnds)-1]
+		}
+		cuts := []int{0, lastEnd, lastEnd + 1, lastEnd + 4, lastEnd + 5, len(fb.bytes) - 1, len(fb.bytes)}
+		for k := 0; k < 3; k++ {
+			cuts = append(cuts, r.Intn(len(fb.bytes)+1))
+		}
+		for _, cut := range cuts {
+			if cut < 0 || cut > len(fb.bytes) {
+				continue
+			}
+			for _, end := range []error{io.EOF, io.ErrUnexpectedEOF} {
+				res := feedClient(&cutBody{data: append([]byte{}, fb.bytes[:cut]...), endErr: end}, 200)
+				e.Eval(fmt.Sprintf("truncated|%d|%v|%v", cut-lastEnd, end == io.EOF, tr.Code == 0), true)
+				w := map[string]any{"messages": nm, "trailer_code": tr.Code, "body_len": len(fb.bytes), "cut": cut, "client_err": fmt.Sprint(res.err)}
+				if res.pan != "" {
+					e.Violate("http/stream/truncated/panic", trunc(res.pan, 400), w)
+					continue
+				}
+				success := res.err == io.EOF
+				switch {
+				case cut < len(fb.bytes) && success:
+					e.Violate("http/stream/truncated/success", fmt.Sprintf("reply cut at byte %d of %d (the trailer with status %d was lost): the client reported a clean end of stream", cut, len(fb.bytes), tr.Code), w)
+				case cut == len(fb.bytes) && tr.Code == 0 && !success:
+					e.Violate("http/stream/complete/failed", fmt.Sprintf("complete OK reply reported as %v", res.err), w)
+				case cut == len(fb.bytes) && tr.Code != 0:
+					if ok, why := sameStatus(status.Convert(res.err).Proto(), &spb.Status{Code: tr.Code, Message: tr.Message, Details: tr.Details}); !ok || success {
+						e.Violate("http/stream/complete/status", "complete reply with an error trailer: "+why, w)
+					}
+				}
 			}
 		}
 	})
